@@ -869,8 +869,12 @@ fn build_and_run(dir: &Path, p: &Program, profiles: &[Vec<String>]) -> Result<Co
     build_and_run_v(dir, p, profiles, None)
 }
 
-/// the gcov format versions grcov accepts as LLVM output, as clang spells them
-pub const COVERAGE_VERSIONS: &[&str] = &["402*", "407*", "408*", "800*", "A93*", "B01*"];
+/// the gcov format versions grcov accepts as LLVM output, as clang spells them: the usual ones and
+/// every threshold the reader tests (47, 48, 80, 90) with its two neighbours – 406*/407*/408*/409*,
+/// 709*/800*/801*, A89*/A90*/A91* (and 900*, the digit spelling of 90)
+pub const COVERAGE_VERSIONS: &[&str] = &[
+    "402*", "407*", "408*", "800*", "A93*", "B01*", "406*", "409*", "709*", "801*", "A89*", "A90*", "A91*", "900*",
+];
 
 fn build_and_run_v(dir: &Path, p: &Program, profiles: &[Vec<String>], version: Option<&str>) -> Result<Compiled, String> {
     let _ = std::fs::remove_dir_all(dir);
